@@ -1,4 +1,6 @@
 import C2paModel.Model.C02
+import C2paModel.Lemmas.C02A
+import C2paModel.Lemmas.C02Walk
 import C2paModel.Lemmas.C18Base
 /-
 C02 — tamper evidence of the manifest store. The statement (properties.jsonl):
@@ -9,18 +11,32 @@ C02 — tamper evidence of the manifest store. The statement (properties.jsonl):
   manifest content, signature information and validation codes exactly as before. A changed
   claim, assertion payload or signature is never reported Valid or Trusted.
 
-Layer A theorems (`store_binds`, `undeclared_detected`) are about the coverage structure:
-under **Sig-free** and **H-free** a manifest that verifies under a given signature value has
-exactly the signed claim bytes, exactly the declared assertion bodies, and its ingredient
-references pin the bodies (and signature boxes) of the referenced manifests; an assertion box
-that the claim does not declare is always reported.
+Layer A theorems are about the model of the comparisons of `verify_claim` / `verify_internal` /
+`ingredient_checks` (Model/C02.lean), which the correspondence run ties to the code at function
+level (`verify` requests: a real, possibly tampered store is described to the model and the
+model's failure list is compared with the log of the real `Store::verify_store`). Idealisations:
+**Sig-free** (`Sig`), **H-free** (`pre` fields, `Pre`).
 
-Layer B theorems (`uncovered_fields_enumerated`, `segs_tile`, `classify_total`) are about the
-byte classifier that the correspondence run compares with the reader on every byte of real
-stores: the classes tile the serialised store without gap or overlap, and the only classes for
-which "accepted with an unchanged report" is a permitted outcome are the five enumerated ones.
-That a change of a free byte does leave the report unchanged, and that the re-built boxes the
-hashes run over contain every non-free field, is what only the correspondence run checks.
+* `verifyClaim_nil_iff` (Lemmas/C02A) — a claim verification logs nothing **iff** the signature
+  was made over exactly these claim bytes, every hashed URI is in this manifest and is either
+  redacted (same manifest, label *and* instance) or equals the first box of its key, and the
+  tracking multiset is used up.
+* `every_assertion_bound` — under distinct (label, instance) of the hashed URIs of the (signed)
+  claim, *every* assertion box present is bound: it has a hashed URI of its key and either that
+  key is redacted or the box body is the signed preimage. `duplicate_uri_unbound` is the
+  counter-example without the hypothesis; `duplicate_box_detected` says a second box of a key
+  is always reported.
+* `changed_assertion_detected` / `sibling_instance_still_bound` — a changed body of a declared,
+  not redacted (label, instance) is always reported, whatever is redacted for *other* instances
+  of the same label.
+* `claim_binds`, `assertions_determined`, `ref_binds` — two manifests that verify under the same
+  signature value have equal claims, equal assertion boxes (up to redacted keys), and their
+  ingredient references pin the referenced claims.
+* `walk_sound` + `chain_binds` — store level, reference paths of any length.
+
+Layer B theorems (`uncovered_fields_enumerated`, `boxSegs_contig`, `classify_total`,
+`sigPad_only_in_active_signature`) are about the byte classifier that the correspondence run
+compares with the reader on every byte of real stores.
 
 `order_not_covered` records what the code does *not* bind: the order of assertion boxes inside
 the active manifest (known finding `edit-accepted-changed-report:assertion-swap`).
@@ -28,190 +44,376 @@ the active manifest (known finding `edit-accepted-changed-report:assertion-swap`
 namespace C2pa.C02
 open C2pa.C18
 
-/-! ### layer A -/
+/-! ### layer A: one claim -/
 
-theorem findAssertion_some {l : String} {as : List AssertionBox} {a : AssertionBox}
-    (h : findAssertion l as = some a) : a ∈ as ∧ a.label = l := by
-  induction as with
-  | nil => simp [findAssertion] at h
-  | cons x xs ih =>
-    unfold findAssertion at h
-    by_cases hx : x.label = l
-    · simp [hx] at h; subst h; exact ⟨List.mem_cons_self .., hx⟩
-    · simp [hx] at h
-      obtain ⟨h1, h2⟩ := ih h
-      exact ⟨List.mem_cons_of_mem _ h1, h2⟩
+/-- **`every_assertion_bound`.** If the verification of a claim logs nothing and the hashed URIs
+of the claim (decoded from the signed claim bytes) have distinct (label, instance), then every
+assertion box present in the assertion store has a hashed URI of its own (label, instance), and
+either exactly that (label, instance) of this manifest is redacted or the box body equals the
+preimage of the URI's digest. -/
+theorem every_assertion_bound (dec : Dec) (reds : List Redaction) (m : Manifest)
+    (h : (verifyClaim dec reds m).log = [])
+    (hnd : ((dec.decl m.claim).map (·.key)).Nodup) :
+    ∀ a ∈ m.assertions, ∃ hu ∈ dec.decl m.claim, hu.key = a.key ∧
+      (redactedBy reds m.label a.key = true ∨ a.body = hu.pre) := by
+  obtain ⟨_, huri, htrack⟩ := (verifyClaim_nil_iff dec reds m).1 h
+  intro a ha
+  have h1 : 1 ≤ cnt a.key m.assertions := cnt_pos_of_mem ha rfl
+  have h2 := cnt_track a.key (dec.decl m.claim) m.assertions
+  rw [htrack] at h2
+  have h3 : ucnt a.key (dec.decl m.claim) ≤ 1 := ucnt_le_one hnd
+  have h4 : 1 ≤ ucnt a.key (dec.decl m.claim) := by simp [cnt] at h2; omega
+  obtain ⟨hu, hmem, hk, _⟩ := mem_of_ucnt_pos h4
+  refine ⟨hu, hmem, hk, ?_⟩
+  obtain ⟨_, _, hor⟩ := huri hu hmem
+  rcases hor with hr | ⟨a', hf, hb⟩
+  · left; rw [← hk]; exact hr
+  · right
+    have hc : cnt hu.key m.assertions ≤ 1 := by rw [hk]; simp [cnt] at h2; omega
+    have : a = a' := findBox_unique hf ha hk.symm hc
+    rw [this]; exact hb
 
-theorem findManifest_some {l : String} {ms : List Manifest} {m : Manifest}
-    (h : findManifest l ms = some m) : m ∈ ms ∧ m.label = l := by
-  induction ms with
-  | nil => simp [findManifest] at h
-  | cons x xs ih =>
-    unfold findManifest at h
-    by_cases hx : x.label = l
-    · simp [hx] at h; subst h; exact ⟨List.mem_cons_self .., hx⟩
-    · simp [hx] at h
-      obtain ⟨h1, h2⟩ := ih h
-      exact ⟨List.mem_cons_of_mem _ h1, h2⟩
+/-- a box is reported as undeclared as soon as there are more boxes of its (label, instance)
+than hashed URIs of that (label, instance): the multiset reading of `ca_tracking_list` -/
+theorem duplicate_box_detected (dec : Dec) (reds : List Redaction) (m : Manifest) (k : Key)
+    (hc : ucnt k (dec.decl m.claim) < cnt k m.assertions) :
+    Failure.assertionUndeclared m.label k ∈ (verifyClaim dec reds m).log ∧
+      (verifyClaim dec reds m).stop = true := by
+  have h2 := cnt_track k (dec.decl m.claim) m.assertions
+  obtain ⟨a, ha, hk⟩ := mem_of_cnt_pos (k := k) (l := track (dec.decl m.claim) m.assertions) (by omega)
+  constructor
+  · unfold verifyClaim
+    apply List.mem_append_right
+    exact List.mem_map.2 ⟨a, ha, by rw [hk]⟩
+  · rw [verifyClaim_stop_iff]
+    intro h0; rw [h0] at ha; cases ha
 
-theorem checkDeclared_nil {m : Manifest} : ∀ {l : List HashedUri}, checkDeclared m l = [] →
-    ∀ hu ∈ l, ∃ a, findAssertion hu.label m.assertions = some a ∧ a.body = hu.pre
-  | [], _, hu, hmem => by cases hmem
-  | x :: xs, h, hu, hmem => by
-    unfold checkDeclared at h
-    obtain ⟨h1, h2⟩ := List.append_eq_nil_iff.1 h
-    rcases List.mem_cons.1 hmem with rfl | hm
-    · cases hf : findAssertion hu.label m.assertions with
-      | none => simp [hf] at h1
-      | some a =>
-        simp only [hf] at h1
-        by_cases hb : a.body = hu.pre
-        · exact ⟨a, rfl, hb⟩
-        · simp [hb] at h1
-    · exact checkDeclared_nil h2 hu hm
-
-theorem checkRefs_nil {store : List Manifest} {m : Manifest} : ∀ {l : List IngRef},
-    checkRefs store m l = [] →
-    ∀ r ∈ l, ∃ t, findManifest r.target store = some t ∧ t.body = r.manifestPre ∧
-      ∀ s, r.sigPre = some s → t.sigBox = s
-  | [], _, r, hmem => by cases hmem
-  | x :: xs, h, r, hmem => by
-    unfold checkRefs at h
-    obtain ⟨h1, h2⟩ := List.append_eq_nil_iff.1 h
-    rcases List.mem_cons.1 hmem with rfl | hm
-    · cases hf : findManifest r.target store with
-      | none => simp [hf] at h1
-      | some t =>
-        simp only [hf] at h1
-        obtain ⟨h3, h4⟩ := List.append_eq_nil_iff.1 h1
-        refine ⟨t, rfl, ?_, ?_⟩
-        · by_cases hb : t.body = r.manifestPre
-          · exact hb
-          · simp [hb] at h3
-        · intro s hs
-          rw [hs] at h4
-          by_cases hb : t.sigBox = s
-          · exact hb
-          · simp [hb] at h4
-    · exact checkRefs_nil h2 r hm
-
-/-- the parts of a failure-free verification -/
-theorem verifyManifest_nil {dec : Dec} {store : List Manifest} {m : Manifest}
-    (h : verifyManifest dec store m = []) :
-    m.sig.signed = m.claim ∧ checkDeclared m (dec.decl m.claim) = [] ∧
-      checkUndeclared m (dec.decl m.claim) m.assertions = [] ∧
-      checkRefs store m (allRefs dec m) = [] := by
-  unfold verifyManifest at h
-  obtain ⟨h123, h4⟩ := List.append_eq_nil_iff.1 h
-  obtain ⟨h12, h3⟩ := List.append_eq_nil_iff.1 h123
-  obtain ⟨h1, h2⟩ := List.append_eq_nil_iff.1 h12
-  refine ⟨?_, h2, h3, h4⟩
-  unfold checkSig at h1
-  by_cases hs : m.sig.signed = m.claim
-  · exact hs
-  · simp [hs] at h1
-
-/-- **`store_binds`.** Two manifests (in any two stores) that both verify without failure under
-the same signature value have: equal claim bytes; for every hashed URI the claim declares, an
-assertion box of that label in each with equal bodies; and for every ingredient reference made
-by an assertion body they share, referenced manifests of that label in both stores with equal
-manifest bodies and (when the reference carries `claimSignature`) equal signature boxes.
-Idealisations: Sig-free (`Sig`), H-free (`pre` fields). -/
-theorem store_binds (dec : Dec) (s s' : List Manifest) (m m' : Manifest)
-    (hv : verifyManifest dec s m = []) (hv' : verifyManifest dec s' m' = [])
-    (hsig : m.sig = m'.sig) :
-    m.claim = m'.claim ∧
-    (∀ hu ∈ dec.decl m.claim, ∃ a ∈ m.assertions, ∃ a' ∈ m'.assertions,
-      a.label = hu.label ∧ a'.label = hu.label ∧ a.body = hu.pre ∧ a'.body = hu.pre) ∧
-    (∀ a ∈ m.assertions, ∀ a' ∈ m'.assertions, a.body = a'.body → ∀ r ∈ dec.refs a.body,
-      ∃ t ∈ s, ∃ t' ∈ s', t.label = r.target ∧ t'.label = r.target ∧ t.body = t'.body ∧
-        (∀ sg, r.sigPre = some sg → t.sigBox = t'.sigBox)) := by
-  obtain ⟨h1, h2, _, h4⟩ := verifyManifest_nil hv
-  obtain ⟨h1', h2', _, h4'⟩ := verifyManifest_nil hv'
-  have hc : m.claim = m'.claim := by rw [← h1, ← h1', hsig]
-  refine ⟨hc, ?_, ?_⟩
-  · intro hu hmem
-    obtain ⟨a, ha, hb⟩ := checkDeclared_nil h2 hu hmem
-    obtain ⟨a', ha', hb'⟩ := checkDeclared_nil h2' hu (by rw [← hc]; exact hmem)
-    obtain ⟨m1, l1⟩ := findAssertion_some ha
-    obtain ⟨m2, l2⟩ := findAssertion_some ha'
-    exact ⟨a, m1, a', m2, l1, l2, hb, hb'⟩
-  · intro a ha a' ha' hbody r hr
-    have hr1 : r ∈ allRefs dec m := List.mem_flatMap.2 ⟨a, ha, hr⟩
-    have hr2 : r ∈ allRefs dec m' := List.mem_flatMap.2 ⟨a', ha', by rw [← hbody]; exact hr⟩
-    obtain ⟨t, ht, hb, hs⟩ := checkRefs_nil h4 r hr1
-    obtain ⟨t', ht', hb', hs'⟩ := checkRefs_nil h4' r hr2
-    obtain ⟨m1, l1⟩ := findManifest_some ht
-    obtain ⟨m2, l2⟩ := findManifest_some ht'
-    refine ⟨t, m1, t', m2, l1, l2, by rw [hb, hb'], ?_⟩
-    intro sg hsg
-    rw [hs sg hsg, hs' sg hsg]
+/-- an assertion box whose (label, instance) no hashed URI declares is always reported -/
+theorem undeclared_detected (dec : Dec) (reds : List Redaction) (m : Manifest) (a : AssertionBox)
+    (ha : a ∈ m.assertions) (hn : ∀ hu ∈ dec.decl m.claim, hu.key ≠ a.key) :
+    Failure.assertionUndeclared m.label a.key ∈ (verifyClaim dec reds m).log := by
+  apply (duplicate_box_detected dec reds m a.key _).1
+  have h0 : ucnt a.key (dec.decl m.claim) = 0 := by
+    cases hz : ucnt a.key (dec.decl m.claim) with
+    | zero => rfl
+    | succ n =>
+      obtain ⟨u, hu, hk, _⟩ := mem_of_ucnt_pos (k := a.key) (l := dec.decl m.claim) (by omega)
+      exact absurd hk (hn u hu)
+  have := cnt_pos_of_mem ha rfl
+  omega
 
 /-- a changed claim under the same signature value is always reported -/
-theorem claim_change_detected (dec : Dec) (s : List Manifest) (m : Manifest)
-    (h : m.sig.signed ≠ m.claim) : Failure.sigMismatch m.label ∈ verifyManifest dec s m := by
-  unfold verifyManifest checkSig
-  simp [h]
+theorem claim_change_detected (dec : Dec) (reds : List Redaction) (m : Manifest)
+    (h : (dec.sigOf m.sigBox).signed ≠ m.claim) : (verifyClaim dec reds m).log ≠ [] := by
+  intro h0
+  exact h ((verifyClaim_nil_iff dec reds m).1 h0).1
 
-theorem checkUndeclared_mem (m : Manifest) (decl : List HashedUri) : ∀ (as : List AssertionBox)
-    (a : AssertionBox), a ∈ as → (∀ hu ∈ decl, hu.label ≠ a.label) →
-    Failure.assertionUndeclared m.label a.label ∈ checkUndeclared m decl as
-  | [], a, h, _ => by cases h
-  | x :: xs, a, h, hn => by
-    unfold checkUndeclared
-    rcases List.mem_cons.1 h with rfl | hm
-    · have : decl.any (fun hu => hu.label == a.label) = false := by
-        rw [Bool.eq_false_iff]
-        intro hh
-        obtain ⟨hu, hmem, he⟩ := List.any_eq_true.1 hh
-        exact hn hu hmem (by simpa using he)
-      simp [this]
-    · exact List.mem_append_right _ (checkUndeclared_mem m decl xs a hm hn)
+/-- **`changed_assertion_detected`.** A hashed URI of the claim whose exact (label, instance) is
+not redacted for this manifest, and whose first box of that key has a body different from the
+signed preimage (or is missing), always produces a failure. -/
+theorem changed_assertion_detected (dec : Dec) (reds : List Redaction) (m : Manifest) (hu : HashedUri)
+    (hmem : hu ∈ dec.decl m.claim) (hr : redactedBy reds m.label hu.key = false)
+    (hb : ∀ a, findBox hu.key m.assertions = some a → a.body ≠ hu.pre) :
+    (verifyClaim dec reds m).log ≠ [] := by
+  intro h0
+  obtain ⟨_, _, hor⟩ := ((verifyClaim_nil_iff dec reds m).1 h0).2.1 hu hmem
+  rcases hor with h | ⟨a, hf, hbody⟩
+  · rw [hr] at h; cases h
+  · exact hb a hf hbody
 
-/-- **`undeclared_detected`.** An assertion box in the assertion store whose label no hashed URI
-of the claim declares always produces the `assertion.undeclared` failure. -/
-theorem undeclared_detected (dec : Dec) (s : List Manifest) (m : Manifest) (a : AssertionBox)
-    (ha : a ∈ m.assertions) (hn : ∀ hu ∈ dec.decl m.claim, hu.label ≠ a.label) :
-    Failure.assertionUndeclared m.label a.label ∈ verifyManifest dec s m := by
-  unfold verifyManifest
-  apply List.mem_append_left
-  apply List.mem_append_right
-  exact checkUndeclared_mem m _ _ a ha hn
+/-- `redactedBy` looks at the manifest, the label *and* the instance -/
+theorem redactedBy_iff (reds : List Redaction) (ml : String) (k : Key) :
+    redactedBy reds ml k = true ↔ ∃ r ∈ reds, r.manifest = ml ∧ r.key.label = k.label ∧ r.key.inst = k.inst := by
+  unfold redactedBy
+  rw [List.any_eq_true]
+  constructor
+  · rintro ⟨r, hr, h⟩
+    simp only [Bool.and_eq_true, decide_eq_true_eq] at h
+    exact ⟨r, hr, h.1, by rw [h.2], by rw [h.2]⟩
+  · rintro ⟨r, hr, h1, h2, h3⟩
+    refine ⟨r, hr, ?_⟩
+    simp only [Bool.and_eq_true, decide_eq_true_eq]
+    refine ⟨h1, ?_⟩
+    cases hk : r.key; cases k; simp_all
 
-/-- a declared assertion whose body differs from the signed preimage is always reported -/
-theorem assertion_change_detected (dec : Dec) (s : List Manifest) (m : Manifest) (hu : HashedUri)
+/-- **`sibling_instance_still_bound`.** Redactions that name *other* instances of a label (or
+other manifests) do not switch off the comparison of this instance: if no redaction names this
+manifest with this label and this instance, a changed body of `label__inst` is reported. -/
+theorem sibling_instance_still_bound (dec : Dec) (reds : List Redaction) (m : Manifest) (hu : HashedUri)
     (hmem : hu ∈ dec.decl m.claim)
-    (hb : ∀ a, findAssertion hu.label m.assertions = some a → a.body ≠ hu.pre) :
-    verifyManifest dec s m ≠ [] := by
-  intro h
-  obtain ⟨_, h2, _, _⟩ := verifyManifest_nil h
-  obtain ⟨a, ha, hbody⟩ := checkDeclared_nil h2 hu hmem
-  exact hb a ha hbody
+    (hother : ∀ r ∈ reds, r.manifest = m.label → r.key.label = hu.key.label → r.key.inst ≠ hu.key.inst)
+    (hb : ∀ a, findBox hu.key m.assertions = some a → a.body ≠ hu.pre) :
+    (verifyClaim dec reds m).log ≠ [] := by
+  apply changed_assertion_detected dec reds m hu hmem _ hb
+  cases hr : redactedBy reds m.label hu.key with
+  | false => rfl
+  | true =>
+    obtain ⟨r, hrm, h1, h2, h3⟩ := (redactedBy_iff reds m.label hu.key).1 hr
+    exact absurd h3 (hother r hrm h1 h2)
 
-/-! ### what layer A does not bind: the order of the assertion boxes -/
+/-- **`claim_binds`.** Two manifests (in any two stores, under any redaction lists) that verify
+without failure and carry the same signature value have equal claim bytes. -/
+theorem claim_binds (dec : Dec) (reds reds' : List Redaction) (m m' : Manifest)
+    (hv : (verifyClaim dec reds m).log = []) (hv' : (verifyClaim dec reds' m').log = [])
+    (hsig : dec.sigOf m.sigBox = dec.sigOf m'.sigBox) : m.claim = m'.claim := by
+  have h1 := ((verifyClaim_nil_iff dec reds m).1 hv).1
+  have h1' := ((verifyClaim_nil_iff dec reds' m').1 hv').1
+  rw [← h1, ← h1', hsig]
 
-def exDec : Dec := ⟨fun _ => [⟨"a", [1]⟩, ⟨"b", [2]⟩], fun _ => []⟩
-def exM (as : List AssertionBox) : Manifest := ⟨"m", [7], ⟨1, [7]⟩, [], as, []⟩
+/-- **`assertions_determined`.** … and, when the hashed URIs of that claim have distinct
+(label, instance), every assertion box of the one whose key is redacted on neither side is an
+assertion box of the other (same key, same body): the assertion stores agree except for redacted
+keys. -/
+theorem assertions_determined (dec : Dec) (reds reds' : List Redaction) (m m' : Manifest)
+    (hv : (verifyClaim dec reds m).log = []) (hv' : (verifyClaim dec reds' m').log = [])
+    (hsig : dec.sigOf m.sigBox = dec.sigOf m'.sigBox)
+    (hnd : ((dec.decl m.claim).map (·.key)).Nodup) :
+    ∀ a ∈ m.assertions, redactedBy reds m.label a.key = false →
+      redactedBy reds' m'.label a.key = false → a ∈ m'.assertions := by
+  intro a ha hr hr'
+  have hc := claim_binds dec reds reds' m m' hv hv' hsig
+  obtain ⟨hu, hmem, hk, hor⟩ := every_assertion_bound dec reds m hv hnd a ha
+  have hbody : a.body = hu.pre := by
+    rcases hor with h | h
+    · rw [hr] at h; cases h
+    · exact h
+  obtain ⟨_, _, hor'⟩ := ((verifyClaim_nil_iff dec reds' m').1 hv').2.1 hu (by rw [← hc]; exact hmem)
+  rcases hor' with h | ⟨a', hf, hb⟩
+  · rw [hk, hr'] at h; cases h
+  · obtain ⟨hm', hk'⟩ := findBox_some hf
+    have : a = a' := by
+      cases a; cases a'
+      simp only [AssertionBox.mk.injEq]
+      exact ⟨by simpa using (hk.symm.trans hk'.symm), by simpa using (hbody.trans hb.symm)⟩
+    rw [this]; exact hm'
+
+/-! ### layer A: one ingredient reference -/
+
+/-- a reference is *consistent* when its two digests were taken from the same manifest: the
+`claimSignature` preimage is the signature box of the `activeManifest` preimage. (Both are
+written by the signer of the referencing claim and covered by that claim's signature.) -/
+def IngRef.Consistent (r : IngRef) : Prop :=
+  ∀ b sg, r.manifestPre = .box b → r.sigPre = some sg → b.sigBox = sg
+
+/-- **`ref_binds`.** One reference `r` (a value decoded from a bound assertion body), followed in
+two stores to manifests `t` and `t'` that pass the hash comparisons of `ingredient_checks` and
+verify themselves: the two manifests have equal claims — provided `r` is consistent and no v1
+claim is mentioned by a redaction (for those nothing is compared: `v1_redacted_unbound`). -/
+theorem ref_binds (dec : Dec) (reds reds' : List Redaction) (r : IngRef) (t t' : Manifest)
+    (hc : r.Consistent)
+    (h : (refFailures reds r t).log = []) (h' : (refFailures reds' r t').log = [])
+    (hv : (verifyClaim dec reds t).log = []) (hv' : (verifyClaim dec reds' t').log = [])
+    (h1 : hasRed reds r.target = true → t.version > 1)
+    (h1' : hasRed reds' r.target = true → t'.version > 1)
+    (hmix : hasRed reds r.target = hasRed reds' r.target ∨ ∃ b, r.manifestPre = .box b) :
+    t.claim = t'.claim := by
+  have key : t.claim = t'.claim ∨ t.sigBox = t'.sigBox := by
+    unfold refFailures at h h'
+    by_cases hr : hasRed reds r.target = true <;> by_cases hr' : hasRed reds' r.target = true
+    · have v := h1 hr; have v' := h1' hr'
+      simp only [hr, hr', Bool.not_true, Bool.false_eq_true, if_false, v, v', if_true] at h h'
+      cases hs : r.sigPre with
+      | none => simp [hs] at h
+      | some s =>
+        simp only [hs] at h h'
+        right
+        have e1 : t.sigBox = s := by by_cases e : t.sigBox = s; exact e; simp [e] at h
+        have e2 : t'.sigBox = s := by by_cases e : t'.sigBox = s; exact e; simp [e] at h'
+        rw [e1, e2]
+    · have v := h1 hr
+      simp only [hr, hr', Bool.not_true, Bool.not_false, Bool.false_eq_true, if_false, if_true, v] at h h'
+      have e2 : r.manifestPre = .box t'.body ∨ r.manifestPre = .claim t'.claim := by
+        by_cases e : r.manifestPre = .box t'.body ∨ r.manifestPre = .claim t'.claim; exact e; simp [e] at h'
+      cases hs : r.sigPre with
+      | none => simp [hs] at h
+      | some s =>
+        simp only [hs] at h
+        have e1 : t.sigBox = s := by by_cases e : t.sigBox = s; exact e; simp [e] at h
+        rcases hmix with hm | ⟨b, hb⟩
+        · rw [hr] at hm; exact absurd hm.symm hr'
+        · rcases e2 with e | e
+          · right
+            have := hc t'.body s e hs
+            rw [e1]; exact this.symm
+          · rw [hb] at e; cases e
+    · have v' := h1' hr'
+      simp only [hr, hr', Bool.not_true, Bool.not_false, Bool.false_eq_true, if_false, if_true, v'] at h h'
+      have e1 : r.manifestPre = .box t.body ∨ r.manifestPre = .claim t.claim := by
+        by_cases e : r.manifestPre = .box t.body ∨ r.manifestPre = .claim t.claim; exact e; simp [e] at h
+      cases hs : r.sigPre with
+      | none => simp [hs] at h'
+      | some s =>
+        simp only [hs] at h'
+        have e2 : t'.sigBox = s := by by_cases e : t'.sigBox = s; exact e; simp [e] at h'
+        rcases hmix with hm | ⟨b, hb⟩
+        · rw [hm] at hr; exact absurd hr' hr
+        · rcases e1 with e | e
+          · right
+            have := hc t.body s e hs
+            rw [e2]; exact this
+          · rw [hb] at e; cases e
+    · simp only [hr, hr', Bool.not_false, if_true] at h h'
+      have e1 : r.manifestPre = .box t.body ∨ r.manifestPre = .claim t.claim := by
+        by_cases e : r.manifestPre = .box t.body ∨ r.manifestPre = .claim t.claim; exact e; simp [e] at h
+      have e2 : r.manifestPre = .box t'.body ∨ r.manifestPre = .claim t'.claim := by
+        by_cases e : r.manifestPre = .box t'.body ∨ r.manifestPre = .claim t'.claim; exact e; simp [e] at h'
+      left
+      rcases e1 with e | e <;> rcases e2 with e' | e'
+      · have : t.body = t'.body := by rw [e] at e'; exact Pre.box.inj e'
+        exact congrArg Body.claim this
+      · rw [e] at e'; cases e'
+      · rw [e] at e'; cases e'
+      · rw [e] at e'; exact Pre.claim.inj e'
+  rcases key with k | k
+  · exact k
+  · exact claim_binds dec reds reds' t t' hv hv' (by rw [k])
+
+
+/-! ### layer A: the whole store, reference paths of any length -/
+
+/-- pairs of manifests reached from the two active manifests along the same references (the
+reference sits in an assertion box present in both) -/
+inductive Linked (dec : Dec) (s s' : List Manifest) (root root' : Manifest) : Manifest → Manifest → Prop
+  | root : Linked dec s s' root root' root root'
+  | step {m m' t t' : Manifest} {a : AssertionBox} {r : IngRef} :
+      Linked dec s s' root root' m m' → a ∈ m.assertions → a ∈ m'.assertions →
+      r ∈ dec.refs a.body → r.zero = false →
+      findManifest r.target s = some t → findManifest r.target s' = some t' →
+      Linked dec s s' root root' t t'
+
+theorem mem_allRefs {dec : Dec} {m : Manifest} {a : AssertionBox} {r : IngRef}
+    (ha : a ∈ m.assertions) (hr : r ∈ dec.refs a.body) (hz : r.zero = false) : r ∈ allRefs dec m := by
+  unfold allRefs
+  rw [List.mem_filter]
+  exact ⟨List.mem_flatMap.2 ⟨a, ha, hr⟩, by simp [hz]⟩
+
+/-- **`chain_binds`.** Two stores whose verification logs nothing and does not stop, with the
+same signature value on the active manifests: along every path of ingredient references, of any
+length, the manifests reached in the two stores have been verified and have equal claim bytes
+(hence, by `assertions_determined`, equal assertion boxes up to redacted keys, which is what the
+next step of the path needs). Hypotheses on the signed data: references are consistent
+(`IngRef.Consistent`); no v1 claim is mentioned by a redaction (`v1_redacted_unbound` shows that
+nothing is compared for those); a legacy (claim-hash) reference is looked at under the same
+"mentioned by a redaction" flag in both stores. -/
+theorem chain_binds (dec : Dec) (s s' : List Manifest) (reds reds' : List Redaction)
+    (root root' : Manifest)
+    (hroot : findManifest root.label s = some root) (hroot' : findManifest root'.label s' = some root')
+    (hok : verifyStoreWith dec s reds root = ⟨[], false⟩)
+    (hok' : verifyStoreWith dec s' reds' root' = ⟨[], false⟩)
+    (hsig : dec.sigOf root.sigBox = dec.sigOf root'.sigBox)
+    (hcons : ∀ b, ∀ r ∈ dec.refs b, r.Consistent)
+    (hv1 : ∀ t ∈ s, hasRed reds t.label = true → t.version > 1)
+    (hv1' : ∀ t ∈ s', hasRed reds' t.label = true → t.version > 1)
+    (hmix : ∀ b, ∀ r ∈ dec.refs b,
+      hasRed reds r.target = hasRed reds' r.target ∨ ∃ bx, r.manifestPre = .box bx) :
+    ∀ t t', Linked dec s s' root root' t t' →
+      Reach dec s root t ∧ Reach dec s' root' t' ∧ t.claim = t'.claim := by
+  have ws := walk_sound dec s reds root hroot hok
+  have ws' := walk_sound dec s' reds' root' hroot' hok'
+  intro t t' hl
+  induction hl with
+  | root =>
+    exact ⟨.root, .root, claim_binds dec reds reds' root root' (ws root .root).1 (ws' root' .root).1 hsig⟩
+  | @step m m' t t' a r _ ha ha' hr hz hf hf' ih =>
+    obtain ⟨hm, hm', _⟩ := ih
+    have hr1 := mem_allRefs (dec := dec) ha hr hz
+    have hr2 := mem_allRefs (dec := dec) ha' hr hz
+    have rt : Reach dec s root t := .step hm hr1 hf
+    have rt' : Reach dec s' root' t' := .step hm' hr2 hf'
+    obtain ⟨t0, hf0, hrf, _⟩ := (ws m hm).2 r hr1
+    obtain ⟨t0', hf0', hrf', _⟩ := (ws' m' hm').2 r hr2
+    have e : t0 = t := by rw [hf] at hf0; exact (Option.some.inj hf0).symm
+    have e' : t0' = t' := by rw [hf'] at hf0'; exact (Option.some.inj hf0').symm
+    subst e; subst e'
+    obtain ⟨hin, hlab⟩ := findManifest_some hf
+    obtain ⟨hin', hlab'⟩ := findManifest_some hf'
+    refine ⟨rt, rt', ?_⟩
+    exact ref_binds dec reds reds' r t0 t0' (hcons _ r hr) hrf hrf' (ws t0 rt).1 (ws' t0' rt').1
+      (fun h => hv1 t0 hin (by rw [hlab]; exact h)) (fun h => hv1' t0' hin' (by rw [hlab']; exact h))
+      (hmix _ r hr)
+
+/-- the same for `verifyStore` (redactions collected from the reachable claims, as the code does) -/
+theorem chain_binds_store (dec : Dec) (s s' : List Manifest) (root root' : Manifest)
+    (hroot : findManifest root.label s = some root) (hroot' : findManifest root'.label s' = some root')
+    (hok : verifyStore dec s root = ⟨[], false⟩) (hok' : verifyStore dec s' root' = ⟨[], false⟩)
+    (hsig : dec.sigOf root.sigBox = dec.sigOf root'.sigBox)
+    (hcons : ∀ b, ∀ r ∈ dec.refs b, r.Consistent)
+    (hv1 : ∀ t ∈ s, hasRed (storeReds dec s root) t.label = true → t.version > 1)
+    (hv1' : ∀ t ∈ s', hasRed (storeReds dec s' root') t.label = true → t.version > 1)
+    (hmix : ∀ b, ∀ r ∈ dec.refs b,
+      hasRed (storeReds dec s root) r.target = hasRed (storeReds dec s' root') r.target ∨
+        ∃ bx, r.manifestPre = .box bx) :
+    ∀ t t', Linked dec s s' root root' t t' → t.claim = t'.claim :=
+  fun t t' hl => (chain_binds dec s s' _ _ root root' hroot hroot' hok hok' hsig hcons hv1 hv1' hmix t t' hl).2.2
+
+/-! ### what layer A does not bind -/
+
+/-- **`v1_redacted_unbound`.** For a referenced v1 claim whose label is mentioned by a redaction
+the hash comparisons of `ingredient_checks` compare nothing: any manifest passes them. -/
+theorem v1_redacted_unbound (reds : List Redaction) (r : IngRef) (t : Manifest)
+    (hr : hasRed reds r.target = true) (hv : t.version ≤ 1) : refFailures reds r t = ⟨[], false⟩ := by
+  unfold refFailures
+  have : ¬ t.version > 1 := by omega
+  simp [hr, this]
+
+def exDec : Dec :=
+  ⟨fun _ => ⟨1, [7]⟩, fun _ => [⟨.relative, ⟨"a", 0⟩, [1]⟩, ⟨.relative, ⟨"b", 0⟩, [2]⟩], fun _ => [], fun _ => []⟩
+def exM (as : List AssertionBox) : Manifest := ⟨"m", 2, [7], [], as, []⟩
 
 /-- **`order_not_covered`**: the same boxes in a different order verify just as well (the reader
 reports ingredients in box order: known finding). -/
 theorem order_not_covered :
-    verifyManifest exDec [] (exM [⟨"a", [1]⟩, ⟨"b", [2]⟩]) = [] ∧
-    verifyManifest exDec [] (exM [⟨"b", [2]⟩, ⟨"a", [1]⟩]) = [] := by
+    verifyClaim exDec [] (exM [⟨⟨"a", 0⟩, [1]⟩, ⟨⟨"b", 0⟩, [2]⟩]) = ⟨[], false⟩ ∧
+    verifyClaim exDec [] (exM [⟨⟨"b", 0⟩, [2]⟩, ⟨⟨"a", 0⟩, [1]⟩]) = ⟨[], false⟩ := by
   constructor <;> decide
 
-example : verifyManifest exDec [] (exM [⟨"a", [1]⟩, ⟨"b", [3]⟩]) = [.assertionMismatch "m" "b"] := by
-  decide
-example : verifyManifest exDec [] (exM [⟨"a", [1]⟩, ⟨"b", [2]⟩, ⟨"c", [2]⟩]) =
-    [.assertionUndeclared "m" "c"] := by decide
+example : verifyClaim exDec [] (exM [⟨⟨"a", 0⟩, [1]⟩, ⟨⟨"b", 0⟩, [3]⟩]) =
+    ⟨[.assertionMismatch "m" ⟨"b", 0⟩], false⟩ := by decide
+example : verifyClaim exDec [] (exM [⟨⟨"a", 0⟩, [1]⟩, ⟨⟨"b", 0⟩, [2]⟩, ⟨⟨"c", 0⟩, [2]⟩]) =
+    ⟨[.assertionUndeclared "m" ⟨"c", 0⟩], true⟩ := by decide
+/-- a second box with a declared key and another body: reported (the code's multiset tracking) -/
+example : verifyClaim exDec [] (exM [⟨⟨"a", 0⟩, [1]⟩, ⟨⟨"b", 0⟩, [2]⟩, ⟨⟨"b", 0⟩, [9]⟩]) =
+    ⟨[.assertionUndeclared "m" ⟨"b", 0⟩], true⟩ := by decide
+
+/-- hashed URIs with a repeated (label, instance) -/
+def dupDec : Dec :=
+  ⟨fun _ => ⟨1, [7]⟩, fun _ => [⟨.relative, ⟨"a", 0⟩, [1]⟩, ⟨.relative, ⟨"a", 0⟩, [1]⟩], fun _ => [], fun _ => []⟩
+
+/-- **`duplicate_uri_unbound`**: without the distinctness hypothesis `every_assertion_bound`
+fails — a claim that lists the same (label, instance) twice lets a second box of that key with
+any body pass (each URI takes one box off the tracking list, both compare the *first* box). The
+claim is signed, so this needs a signer that emits such a claim; the SDK's builder never does. -/
+theorem duplicate_uri_unbound :
+    verifyClaim dupDec [] (exM [⟨⟨"a", 0⟩, [1]⟩, ⟨⟨"a", 0⟩, [9]⟩]) = ⟨[], false⟩ ∧
+    ¬ ∃ hu ∈ dupDec.decl [7], hu.key = ⟨"a", 0⟩ ∧ ([9] : Bytes) = hu.pre := by
+  constructor
+  · decide
+  · decide
+
+/-- redaction of instance 1 of a label, and a changed instance 2 of the same label: reported
+(non-vacuity of `sibling_instance_still_bound`) -/
+example : (verifyClaim
+    ⟨fun _ => ⟨1, [7]⟩, fun _ => [⟨.relative, ⟨"n", 1⟩, [1]⟩, ⟨.relative, ⟨"n", 2⟩, [2]⟩], fun _ => [], fun _ => []⟩
+    [⟨"self#jumbf=/c2pa/m/c2pa.assertions/n__1", "m", ⟨"n", 1⟩⟩]
+    (exM [⟨⟨"n", 1⟩, [0]⟩, ⟨⟨"n", 2⟩, [9]⟩])).log = [.assertionMismatch "m" ⟨"n", 2⟩] := by decide
+/-- … while the redacted instance itself may carry anything -/
+example : (verifyClaim
+    ⟨fun _ => ⟨1, [7]⟩, fun _ => [⟨.relative, ⟨"n", 1⟩, [1]⟩, ⟨.relative, ⟨"n", 2⟩, [2]⟩], fun _ => [], fun _ => []⟩
+    [⟨"self#jumbf=/c2pa/m/c2pa.assertions/n__1", "m", ⟨"n", 1⟩⟩]
+    (exM [⟨⟨"n", 1⟩, [0]⟩, ⟨⟨"n", 2⟩, [2]⟩])).log = [] := by decide
+
+/-- non-vacuity of `every_assertion_bound` / `assertions_determined` / `claim_binds` -/
+example : (verifyClaim exDec [] (exM [⟨⟨"a", 0⟩, [1]⟩, ⟨⟨"b", 0⟩, [2]⟩])).log = [] ∧
+    ((exDec.decl (exM []).claim).map (·.key)).Nodup := by decide
 
 /-! ### layer B: the classifier -/
 
 /-- **`uncovered_fields_enumerated`**: the classes for which an accepted read with an unchanged
-report is a permitted outcome are exactly these five; for every other class the only permitted
+report is a permitted outcome are exactly these nine; for every other class the only permitted
 outcome of a change is detection. -/
 theorem uncovered_fields_enumerated (c : Cls) :
-    (c.free = true ↔ c = .lbox ∨ c = .toggles ∨ c = .rootLabel ∨ c = .claimVersion ∨ c = .sigPad) ∧
+    (c.free = true ↔ c = .lbox ∨ c = .toggles ∨ c = .rootLabel ∨ c = .claimVersion ∨ c = .sigPad ∨
+      c = .dataUuid ∨ c = .credLabel ∨ c = .bfdbToggles ∨ c = .cborStrHead) ∧
     (c.free = false → ∀ o, allowed c o = true → o = 'd' ∨ o = '-') := by
   constructor
   · cases c <;> simp [Cls.free]
@@ -235,21 +437,23 @@ theorem contig_append : ∀ {l l' : List Seg} {a m b : Nat}, Contig l a m → Co
     obtain ⟨h1, h2⟩ := h
     exact ⟨h1, contig_append h2 h'⟩
 
-theorem labelSegs_contig (root : Bool) (off : Nat) (label : Bytes) :
-    Contig (labelSegs root off label) off (off + labelLen label) := by
+theorem labelSegs_contig (root cred : Bool) (off : Nat) (label : Bytes) :
+    Contig (labelSegs root cred off label) off (off + labelLen label) := by
   unfold labelSegs labelLen
   by_cases h : strNonEmpty label = true
   · simp only [h, if_true]
     by_cases hr : root = true
     · simp [hr, Contig]; omega
-    · by_cases hc : claimPrefix.isPrefixOf label = true
-      · have hle : claimPrefix.length ≤ label.length := (List.isPrefixOf_iff_prefix.1 hc).length_le
-        simp [hr, hc, Contig]; omega
-      · simp [hr, hc, Contig]; omega
+    · by_cases hd : cred = true
+      · simp [hr, hd, Contig]; omega
+      · by_cases hc : claimPrefix.isPrefixOf label = true
+        · have hle : claimPrefix.length ≤ label.length := (List.isPrefixOf_iff_prefix.1 hc).length_le
+          simp [hr, hd, hc, Contig]; omega
+        · simp [hr, hd, hc, Contig]; omega
   · simp [h, Contig]
 
-theorem descSegs_contig (root : Bool) (off : Nat) (d : Desc) :
-    Contig (descSegs root off d) off (off + (8 + (descPayload d).length)) := by
+theorem descSegs_contig (ctx : Ctx) (off : Nat) (d : Desc) :
+    Contig (descSegs ctx off d) off (off + (8 + (descPayload d).length)) := by
   have hlen : (descPayload d).length = d.uuid.length + 1 + labelLen d.label
       + ((match d.boxId with | some _ => 4 | none => 0) + (optBytes d.sig).length)
       + (match d.salt with | some s => 8 + s.length | none => 0) := by
@@ -259,22 +463,22 @@ theorem descSegs_contig (root : Bool) (off : Nat) (d : Desc) :
   unfold descSegs
   simp only [List.cons_append, List.nil_append, Contig, true_and]
   apply contig_append (m := off + 8 + d.uuid.length + 1 + labelLen d.label)
-  · exact labelSegs_contig root (off + 8 + d.uuid.length + 1) d.label
+  · exact labelSegs_contig (decide (ctx = .root)) (decide (ctx = .credChild)) (off + 8 + d.uuid.length + 1) d.label
   · rw [hlen]
     cases d.boxId <;> cases d.salt <;> simp [Contig] <;> omega
 
 mutual
 /-- **`segs_tile`**: the classifier's segments tile the serialised box exactly -/
-theorem boxSegs_contig (root : Bool) (off : Nat) : (b : Box) →
-    Contig (boxSegs root off b) off (off + b.size)
+theorem boxSegs_contig (ctx : Ctx) (off : Nat) : (b : Box) →
+    Contig (boxSegs ctx off b) off (off + b.size)
   | .super d cs => by
     unfold boxSegs Box.size
     refine ⟨rfl, rfl, ?_⟩
     apply contig_append (m := off + 8 + (8 + (descPayload d).length))
-    · have := descSegs_contig root (off + 8) d
+    · have := descSegs_contig ctx (off + 8) d
       rw [show off + 4 + 4 = off + 8 by omega]
       exact this
-    · have := listSegs_contig (off + 8 + (8 + (descPayload d).length)) cs
+    · have := listSegs_contig (childCtx ctx d.label) (off + 8 + (8 + (descPayload d).length)) cs
       rw [show off + (8 + (8 + (descPayload d).length) + sizeList cs) =
         off + 8 + (8 + (descPayload d).length) + sizeList cs by omega]
       exact this
@@ -286,14 +490,15 @@ theorem boxSegs_contig (root : Bool) (off : Nat) : (b : Box) →
     simp only [Contig, true_and]; omega
   | .bfdb t m _ => by
     unfold boxSegs Box.size
+    have : (bfdbPayload t m).length ≥ 1 := by simp [bfdbPayload]
     simp only [Contig, true_and]; omega
-theorem listSegs_contig (off : Nat) : (bs : List Box) →
-    Contig (listSegs off bs) off (off + sizeList bs)
+theorem listSegs_contig (ctx : Ctx) (off : Nat) : (bs : List Box) →
+    Contig (listSegs ctx off bs) off (off + sizeList bs)
   | [] => by unfold listSegs sizeList Contig; omega
   | b :: bs => by
     unfold listSegs sizeList
-    apply contig_append (boxSegs_contig false off b)
-    have := listSegs_contig (off + b.size) bs
+    apply contig_append (boxSegs_contig ctx off b)
+    have := listSegs_contig ctx (off + b.size) bs
     rw [show off + (b.size + sizeList bs) = off + b.size + sizeList bs by omega]
     exact this
 end
@@ -312,15 +517,209 @@ theorem contig_cover : ∀ {l : List Seg} {a b : Nat}, Contig l a b → ∀ p, a
 
 /-- **`classify_total`**: every byte position of the serialised store has a class -/
 theorem classify_total (t : Box) (p : Nat) (hp : p < t.size) :
-    (clsAt (boxSegs true 0 t) p).isSome = true := by
-  obtain ⟨s, hs, h1, h2⟩ := contig_cover (boxSegs_contig true 0 t) p (Nat.zero_le _) (by omega)
+    (clsAt (boxSegs .root 0 t) p).isSome = true := by
+  obtain ⟨s, hs, h1, h2⟩ := contig_cover (boxSegs_contig .root 0 t) p (Nat.zero_le _) (by omega)
   unfold clsAt
-  have hf : ((boxSegs true 0 t).find? (fun s => decide (s.start ≤ p) && decide (p < s.start + s.len))).isSome
+  have hf : ((boxSegs .root 0 t).find? (fun s => decide (s.start ≤ p) && decide (p < s.start + s.len))).isSome
       = true := by
     rw [List.find?_isSome]
     exact ⟨s, hs, by simp [h1, h2]⟩
-  cases hq : (boxSegs true 0 t).find? (fun s => decide (s.start ≤ p) && decide (p < s.start + s.len)) with
+  cases hq : (boxSegs .root 0 t).find? (fun s => decide (s.start ≤ p) && decide (p < s.start + s.len)) with
   | none => rw [hq] at hf; cases hf
   | some x => rfl
+
+
+/-! #### the pad locator cannot widen the free bytes beyond the active signature box -/
+
+/-- **`sigPad_only_in_active_signature`**: a byte is classified `sigPad` only if it is a content
+byte, lies in a pad range handed in by the harness *and* lies inside the `c2pa.signature` box of
+the active manifest (`sigSpan`, located by the model on the parsed tree). -/
+theorem labelSegs_no_sigPad (root cred : Bool) (off : Nat) (label : Bytes) :
+    ∀ s ∈ labelSegs root cred off label, s.cls ≠ .sigPad := by
+  intro s hs
+  unfold labelSegs at hs
+  by_cases h : strNonEmpty label = true
+  · simp only [h, if_true] at hs
+    by_cases hr : root = true
+    · simp only [hr, if_true, List.cons_append, List.nil_append, List.mem_cons, List.not_mem_nil, or_false] at hs
+      rcases hs with rfl | rfl <;> simp
+    · by_cases hd : cred = true
+      · simp only [hr, hd, if_true, Bool.false_eq_true, if_false, List.cons_append, List.nil_append,
+          List.mem_cons, List.not_mem_nil, or_false] at hs
+        rcases hs with rfl | rfl <;> simp
+      · by_cases hc : claimPrefix.isPrefixOf label = true
+        · simp only [hr, hd, hc, if_true, Bool.false_eq_true, if_false, List.cons_append, List.nil_append,
+            List.mem_cons, List.not_mem_nil, or_false] at hs
+          rcases hs with rfl | rfl | rfl <;> simp
+        · simp only [hr, hd, hc, Bool.false_eq_true, if_false, List.cons_append, List.nil_append,
+            List.mem_cons, List.not_mem_nil, or_false] at hs
+          rcases hs with rfl | rfl <;> simp
+  · simp [h] at hs
+
+theorem descSegs_no_sigPad (ctx : Ctx) (off : Nat) (d : Desc) :
+    ∀ s ∈ descSegs ctx off d, s.cls ≠ .sigPad := by
+  intro s hs
+  unfold descSegs at hs
+  simp only [List.cons_append, List.nil_append, List.mem_cons, List.mem_append, List.not_mem_nil,
+    or_false] at hs
+  rcases hs with rfl | rfl | rfl | h | rfl | rfl
+  · simp
+  · by_cases hc : ctx = .dataChild ∨ ctx = .credChild <;> simp [hc]
+  · simp
+  · exact labelSegs_no_sigPad _ _ _ _ s h
+  · simp
+  · simp
+
+mutual
+theorem boxSegs_no_sigPad (ctx : Ctx) (off : Nat) : (b : Box) →
+    ∀ s ∈ boxSegs ctx off b, s.cls ≠ .sigPad
+  | .super d cs => by
+    intro s hs
+    unfold boxSegs at hs
+    simp only [List.cons_append, List.nil_append, List.mem_cons, List.mem_append] at hs
+    rcases hs with rfl | rfl | h | h
+    · simp
+    · simp
+    · exact descSegs_no_sigPad _ _ _ s h
+    · exact listSegs_no_sigPad _ _ cs s h
+  | .leaf _ data => by
+    intro s hs
+    unfold boxSegs at hs
+    simp only [List.mem_cons, List.not_mem_nil, or_false] at hs
+    rcases hs with rfl | rfl | rfl
+    · simp
+    · simp
+    · by_cases hc : ctx = .dataInner <;> simp [hc]
+  | .uuid u data => by
+    intro s hs
+    unfold boxSegs at hs
+    simp only [List.mem_cons, List.not_mem_nil, or_false] at hs
+    rcases hs with rfl | rfl | rfl <;> simp
+  | .bfdb t m _ => by
+    intro s hs
+    unfold boxSegs at hs
+    simp only [List.mem_cons, List.not_mem_nil, or_false] at hs
+    rcases hs with rfl | rfl | rfl | rfl <;> simp
+theorem listSegs_no_sigPad (ctx : Ctx) (off : Nat) : (bs : List Box) →
+    ∀ s ∈ listSegs ctx off bs, s.cls ≠ .sigPad
+  | [] => by intro s hs; simp [listSegs] at hs
+  | b :: bs => by
+    intro s hs
+    unfold listSegs at hs
+    rcases List.mem_append.1 hs with h | h
+    · exact boxSegs_no_sigPad ctx off b s h
+    · exact listSegs_no_sigPad _ _ bs s h
+end
+
+theorem clsAt_ne_sigPad (t : Box) (p : Nat) : clsAt (boxSegs .root 0 t) p ≠ some .sigPad := by
+  unfold clsAt
+  cases hf : (boxSegs .root 0 t).find? (fun s => decide (s.start ≤ p) && decide (p < s.start + s.len)) with
+  | none => simp
+  | some s =>
+    have := boxSegs_no_sigPad .root 0 t s (List.mem_of_find?_eq_some hf)
+    simpa using this
+
+theorem sigPad_only_in_active_signature (t : Box) (pads : List (Nat × Nat)) (heads : List Nat) (p : Nat)
+    (h : classify t pads heads p = some .sigPad) :
+    ∃ o n, sigSpan t = some (o, n) ∧ o ≤ p ∧ p < o + n ∧
+      clsAt (boxSegs .root 0 t) p = some .content ∧ inRanges pads p = true := by
+  unfold classify classifyWith at h
+  cases hc : clsAt (boxSegs .root 0 t) p with
+  | none => simp [hc] at h
+  | some c =>
+    cases c with
+    | content =>
+      simp only [hc] at h
+      by_cases hi : (inSpan (sigSpan t) p && inRanges pads p) = true
+      · rw [Bool.and_eq_true] at hi
+        obtain ⟨h1, h2⟩ := hi
+        unfold inSpan at h1
+        cases hs : sigSpan t with
+        | none => simp [hs] at h1
+        | some on =>
+          obtain ⟨o, n⟩ := on
+          simp only [hs, Bool.and_eq_true, decide_eq_true_eq] at h1
+          exact ⟨o, n, rfl, h1.1, h1.2, rfl, h2⟩
+      · simp [hi] at h
+    | sigPad => exact absurd hc (clsAt_ne_sigPad t p)
+    | dataContent =>
+      simp only [hc] at h
+      split at h <;> cases h
+    | _ => simp only [hc] at h; cases h
+
+theorem lastChildSpan_size : ∀ {cs : List Box} {off o n : Nat} {b : Box},
+    lastChildSpan off cs = some (o, n) → lastChild cs = some b →
+      n = b.size ∧ off ≤ o ∧ o + n = off + sizeList cs
+  | [x], off, o, n, b, h, hb => by
+    simp only [lastChildSpan, Option.some.injEq, Prod.mk.injEq] at h
+    simp only [lastChild, Option.some.injEq] at hb
+    subst hb
+    simp only [sizeList]
+    omega
+  | x :: y :: ys, off, o, n, b, h, hb => by
+    simp only [lastChildSpan] at h
+    simp only [lastChild] at hb
+    have := lastChildSpan_size (cs := y :: ys) h hb
+    simp only [sizeList] at this ⊢
+    omega
+
+theorem labelledSpan_bound (l : Bytes) : ∀ {bs : List Box} {off o n : Nat},
+    labelledSpan l off bs = some (o, n) → off ≤ o ∧ o + n ≤ off + sizeList bs
+  | b :: bs, off, o, n, h => by
+    cases b with
+    | super d cs =>
+      simp only [labelledSpan] at h
+      by_cases hl : d.label = l
+      · simp only [hl, if_true, Option.some.injEq, Prod.mk.injEq] at h
+        simp only [sizeList]
+        omega
+      · simp only [hl, if_false] at h
+        have := labelledSpan_bound l h
+        simp only [sizeList]
+        omega
+    | leaf k data =>
+      simp only [labelledSpan] at h
+      have := labelledSpan_bound l h
+      simp only [sizeList]
+      omega
+    | uuid u data =>
+      simp only [labelledSpan] at h
+      have := labelledSpan_bound l h
+      simp only [sizeList]
+      omega
+    | bfdb tg mt fn =>
+      simp only [labelledSpan] at h
+      have := labelledSpan_bound l h
+      simp only [sizeList]
+      omega
+
+/-- the located signature box lies inside the active manifest -/
+theorem sigSpan_in_active (t : Box) (o n : Nat) (h : sigSpan t = some (o, n)) :
+    ∃ ao an, activeSpan t = some (ao, an) ∧ ao ≤ o ∧ o + n ≤ ao + an := by
+  cases t with
+  | super d cs =>
+    unfold sigSpan at h
+    cases hs : lastChildSpan (8 + (8 + (descPayload d).length)) cs with
+    | none => simp [hs] at h
+    | some sp =>
+      obtain ⟨ao, an⟩ := sp
+      cases hb : lastChild cs with
+      | none => simp [hs, hb] at h
+      | some b =>
+        cases b with
+        | super dm parts =>
+          simp only [hs, hb] at h
+          obtain ⟨h1, _, _⟩ := lastChildSpan_size hs hb
+          have h2 := labelledSpan_bound signatureLabel h
+          refine ⟨ao, an, by simp [activeSpan, hs], by omega, ?_⟩
+          rw [h1]
+          simp only [Box.size]
+          omega
+        | leaf k data => simp [hs, hb] at h
+        | uuid u data => simp [hs, hb] at h
+        | bfdb tg mt fn => simp [hs, hb] at h
+  | leaf k data => simp [sigSpan] at h
+  | uuid u data => simp [sigSpan] at h
+  | bfdb tg mt fn => simp [sigSpan] at h
 
 end C2pa.C02
